@@ -76,12 +76,6 @@ Proof. exact new_via_adder_eq. Qed.
 Check new_matches_adder : forall b, b < TWO32 -> new_via_adder b = new b.
 Print Assumptions new_matches_adder.
 
-(* The second copy of the canonicalisation policy (echo-wasm-abi codec) is the same function. *)
-Theorem codec_canonicalize_agrees : forall b, codec_canonicalize_f32 b = new b.
-Proof. exact codec_canonicalize_is_new. Qed.
-Check codec_canonicalize_agrees : forall b, codec_canonicalize_f32 b = new b.
-Print Assumptions codec_canonicalize_agrees.
-
 (* The checked-in quarter-wave table (regenerated from trig_lut.rs): 1025 entries from +0.0 to 1.0,
    non-decreasing, every entry within [0, 1]. *)
 Theorem sin_table_facts :
